@@ -1,11 +1,11 @@
-\* one user contract, one slot, values {0,1,2}, two Cairo-0 classes, <= 3 blocks, diffs of <= 3 entries
-\* measured: 59 754 distinct states (FixH4 = TRUE), ~35 s on 4 workers
+\* one user contract, one slot, values {0,1,2}, one Cairo-0 class, <= 3 blocks, diffs of <= 3 entries
+\* measured: 8 207 distinct states, 24 620 generated (FixH4 = TRUE)
 CONSTANTS
   Users = {"c1"}
   Sys = {}
   Slots = {"s1"}
   MaxV = 2
-  Cairo0 = {"k0", "k1"}
+  Cairo0 = {"k0"}
   Sierra = {}
   TxIds = {}
   L1Txs = {}
